@@ -107,6 +107,11 @@ pub fn check_symbol(q: &QRCode, input: &[u8], o: &Opts) -> Vec<Finding> {
             out.push(f("C03", "size-vs-forced-version", format!("forced version {} but side {}", fv, n)));
         }
     }
+    if let Some(fv) = q.version {
+        if fv as usize + 1 != v {
+            out.push(f("C03", "size-vs-reported-version", format!("the symbol reports version {} but its side is {} (= version {})", fv as usize + 1, n, v)));
+        }
+    }
     if let Some(i) = q.data[n * n..].iter().position(|m| m.0 != 0) {
         out.push(f("C03", "tail", format!("module {} outside the {}x{} square is not the default light data module (raw {:#x})", n * n + i, n, n, q.data[n * n + i].0)));
     }
